@@ -72,6 +72,7 @@ def run(repo, rep, tier):
     _raise_sites(repo, rep, split_ok)
     _token_tables(repo, rep, split_ok)
     _parser_outputs(repo, rep)
+    _text_visits(repo, rep)
     _match_spans(repo, rep)
     _location(repo, rep)
     _census(repo, rep)
@@ -772,6 +773,38 @@ def _parser_outputs(repo, rep):
               "parse_tag dissects the token it was given (match_tag(%s))"
               % tok, construct="tag-parsed-itself", where=L.where(pt),
               detail=P.path_text(miss[0], 10) if miss else "")
+
+
+def _text_visits(repo, rep):
+    """Text handed to MacroProgram.visit_text becomes Interpolation nodes
+    whose ${...} expressions report errors at token positions: what is
+    passed must still carry a position (not a str rebuilt by '...' + token,
+    which is a plain str)."""
+    mp = repo.cls("chameleon.zpt.program.MacroProgram")
+    n = 0
+    for name, m in sorted(mp.methods.items()):
+        if not name.startswith("visit_"):
+            continue
+        for c in ast.walk(m.node):
+            if isinstance(c, ast.Call) and src(c.func) == "self.visit_text" \
+                    and c.args:
+                n += 1
+                chains = _chains(m.node, c.args[0], c.lineno + 1)
+                plain = [[] if "call:Token" in ch else
+                         [x for x in ch if x == "const" or
+                          x.startswith("format:") or x == "call:str" or
+                          (x.startswith("method:") and
+                           x[7:] in PLAIN_METHODS)] for ch in chains]
+                shown = " | ".join(" <- ".join(ch) for ch in chains[:3])
+                rep.check(not all(plain), "R11.2", m.qualname, "the text "
+                          "given to visit_text keeps its source position "
+                          "(chains: %s)" % shown[:200],
+                          construct="text-visit:" + name,
+                          where=L.where(m, c.lineno),
+                          detail="built as %s: a plain str, errors in its "
+                                 "${...} are reported at offset 0" % src(
+                                     c.args[0])[:60])
+    rep.count("visit_text_calls", n)
 
 
 def _match_spans(repo, rep):
